@@ -78,6 +78,11 @@ pub struct Ctx<'u> {
     /// recorded-sum rules are attributed to these properties, accounting
     /// pruning is off (a torn operation legitimately leaves sizes stale)
     pub fault_props: Props,
+    /// additional key ids to look up in every state (removed seed fillers)
+    pub extra_ids: Vec<u32>,
+    /// rule signatures of recorded known findings: they are reported but do
+    /// not stop the exploration of the state they lead to
+    pub known_rules: Vec<String>,
 }
 
 /// Panic payload -> readable string; distinguishes injected panics.
